@@ -340,6 +340,13 @@ func runC01case(cs c01case) (o c01obs) {
 		}
 	}
 	var wantCut []int // emitted-byte offsets at which a transport read must end (pipe lock held)
+	// cutPrompt asks for a read boundary inside the prompt the device is about to print `before`
+	// bytes from now: between its last non-blank byte and the blanks that end it
+	cutPrompt := func(before int) {
+		if t := strings.TrimRight(cur, " "); cs.cutInPrompt && len(t) < len(cur) {
+			wantCut = append(wantCut, dev.Emitted+before+len(t))
+		}
+	}
 	k := 0
 	dev.Handle = func(_ *sim.CLI, line string) string {
 		cur = cs.prompt
@@ -364,9 +371,11 @@ func runC01case(cs c01case) (o c01obs) {
 				for _, c := range cs.cmds[op.ci].cuts {
 					wantCut = append(wantCut, dev.Emitted+len(cs.nl)+c)
 				}
+				cutPrompt(len(cs.nl) + len(cs.cmds[op.ci].out))
 				return cs.cmds[op.ci].out
 			}
 		}
+		cutPrompt(len(cs.nl))
 		return ""
 	}
 	sr := vlib.NewRng(cs.seed ^ 0xabcdef)
@@ -378,7 +387,7 @@ func runC01case(cs c01case) (o c01obs) {
 	case 3, 4:
 		dev.Seg = func(avail int) int { return 1 + sr.Intn(avail+cs.segK)%(cs.segK*3) }
 	}
-	if cs.promptLines {
+	if cs.promptLines || cs.cutInPrompt {
 		// whatever the segmentation class: a read ends exactly at every requested offset
 		inner := dev.Seg
 		dev.Seg = func(avail int) int {
@@ -398,6 +407,7 @@ func runC01case(cs c01case) (o c01obs) {
 		}
 	}
 	dev.ReadPause = time.Duration(cs.pauseUs) * time.Microsecond
+	cutPrompt(0) // the login prompt
 	dev.Start()
 	var impl transport.Implementation = dev
 	var sparse *sim.SparseCLI
@@ -723,12 +733,14 @@ func c01reconstruct(cs c01case, all []c01op, dev *sim.CLI, o *c01obs) {
 			return dev.Emitted
 		}
 		regs := []region{{eb(0), true}}
+		promptReg := map[int]bool{} // regions that are a GetPrompt's
 		w := 0
 		for _, op := range all {
 			switch {
 			case op.kind == 'P':
 				// a GetPrompt that finds a prompt already queued (after login, after an eager send)
 				// returns without waiting for the reaction to its own return
+				promptReg[len(regs)] = true
 				regs = append(regs, region{eb(w + 1), regs[len(regs)-1].movable})
 				w++
 			case c01isSend(op.kind):
@@ -747,6 +759,15 @@ func c01reconstruct(cs c01case, all []c01op, dev *sim.CLI, o *c01obs) {
 				end = len(stream)
 			}
 			if end < pos && !cuts[end] && end > start {
+				if rg.movable && promptReg[ri+1] {
+					// the next operation is a GetPrompt: unlike the echo read of a send, which swallows
+					// whatever is queued together with its echo, a GetPrompt answers from the bytes queued
+					// when it is called, so where this read was cut relative to the caller's write decides
+					// its result (a prompt "router# " cut behind "#" is served as "router#"). That is a
+					// race between the caller and the transport inside a device emission, not a
+					// segmentation of the exchange: outside the quantifier
+					o.straddle = true
+				}
 				if rg.movable {
 					// the read that carries the end of this region belongs, whole, to the next one
 					for end > start && !cuts[end] {
